@@ -203,3 +203,20 @@ func init() {
 		[]string{"same with JPY and BHD"},
 		[]string{"whole-pipeline comparison with a reference implementation under the precise rule and the 'less than a full minor unit' bound (only the per-step exactness is decided; the pipeline's accounting identities are decided under the currency rule in C03)", "sub-line breakdowns", "regime-default rule selection"}))
 }
+
+func init() {
+	reg(&propCfg{
+		ID:      "C15",
+		Pkgs:    []string{"tax", "bill"},
+		Lenient: []string{"tax", "cbc", "bill", "org", "num", "cal"},
+		Stages:  []stage{{Name: "merge-helpers", Harness: `^H_C15_`}},
+		Functions: []string{"tax.(*TagSet).Merge", "tax.(*CorrectionDefinition).Merge", "tax.Extensions.Merge", "tax.(*ScenarioSet).Merge", "tax.NewScenarioSet", "bill.(*Invoice).supportedTags", "bill.(*Invoice).correctionDef", "bill.(*Invoice).scenarioSummary", "tax.TagSetForSchema", "tax.(*ScenarioSet).SummaryFor"},
+		Stubs:     []string{"operands frozen: every store to a cell reachable from an operand (including spare slice capacity) is an event; natively a deep dump of the operands is compared before/after and aliasing is asserted through two merges from one receiver"},
+		Bounds: map[string][]string{
+			"quick":    {"shared lists of 0..2 entries with 0..2 cells of spare capacity, one or two operand entries, duplicate or not; flags by choice"},
+			"thorough": {"same as quick"},
+		},
+		Outside:     []string{"interleavings of goroutines, the race detector, result equivalence under contention, bulk request / response pairing: goroutines and channels are not encoded and a solver adds nothing to schedule enumeration; only the 'shared definitions are never written' sufficient condition is decided"},
+		Assumptions: []string{"a data race on shared definitions needs a write to them after initialisation"},
+	})
+}
